@@ -48,7 +48,7 @@ ItemClauses(e) == IF ~IsItem(e) \/ ~Accepted(e) THEN {} ELSE (IF ExtOK(e) THEN {
 RtClauses(e) == IF e.before = e.after THEN {} ELSE {"RoundTrip_" \o e.route}
 Nontrivial(e) == IsRt(e) \/ (IsItem(e) /\ Accepted(e))
 Diverges(e) == IsItem(e) /\ \/ (e.error = "" /\ ~e.installed)
-                            \/ (e.src = "vec" /\ e.error # "" /\ e.cand.sok /\ e.cand.newname)
+                            \/ (e.src = "vec" /\ e.error # "" /\ e.cand.sok /\ e.cand.newname /\ e.cand.wf)
 TNext == l <= Len(Trace) /\ LET e == Trace[l] IN
          IF IsRt(e) THEN TStep(e.tid, RtClauses(e), TRUE, FALSE)
          ELSE IF DefAccepted(e) THEN LET v == DefV(e) IN TStepInfo(e.tid, ItemClauses(e) \cup DefClauses(v), TRUE, FALSE, DefInfo(e, v))
